@@ -2,6 +2,7 @@ package props
 
 import (
 	"fmt"
+	"sync"
 
 	"github.com/pion/stun/v3"
 	"github.com/pion/stun/v3/verifharness/core"
@@ -138,8 +139,56 @@ func c05Make(c *core.Ctx, r *gen.Rand, maxVal int) []byte {
 	return append([]byte(nil), m.Raw...)
 }
 
+// c05Concurrent: many goroutines fingerprint and verify their own messages at the same time; each appended value must
+// be the CRC of that goroutine's message (the race build runs this under the race detector).
+func c05Concurrent(c *core.Ctx, idx int64) {
+	const g = 8
+	var wg sync.WaitGroup
+	bad := make([]string, g)
+	for k := 0; k < g; k++ {
+		wg.Add(1)
+		rk := gen.Derive(c.Seed, uint64(idx), uint64(k), 0xC05C)
+		go func(k int) {
+			defer wg.Done()
+			for n := 0; n < 300 && bad[k] == ""; n++ {
+				m := new(stun.Message)
+				_ = m.Build(stun.BindingRequest, stun.NewTransactionIDSetter(rk.TID()), stun.RawAttribute{Type: 0x8022, Value: rk.Bytes(rk.Intn(40))})
+				pre := append([]byte(nil), m.Raw...)
+				l := len(pre) - 20 + 8
+				pre[2], pre[3] = byte(l>>8), byte(l)
+				want := ref.FingerprintValue(pre)
+				_ = stun.Fingerprint.AddTo(m)
+				tail := m.Raw[len(m.Raw)-4:]
+				got := uint32(tail[0])<<24 | uint32(tail[1])<<16 | uint32(tail[2])<<8 | uint32(tail[3])
+				if got != want {
+					bad[k] = fmt.Sprintf("appended %08x, CRC oracle %08x for %x", got, want, m.Raw)
+				} else if err := stun.Fingerprint.Check(m); err != nil {
+					bad[k] = "just fingerprinted message fails its check: " + err.Error()
+				}
+			}
+		}(k)
+	}
+	wg.Wait()
+	c.Eval(g * 300)
+	c.Count("concurrent_fingerprints", g*300)
+	for _, b := range bad {
+		if b != "" {
+			c.Violate("concurrent-setter-mismatch", "concurrent-setter-mismatch", map[string]interface{}{"goroutines": g, "problem": b})
+
+			return
+		}
+	}
+}
+
 func c05(c *core.Ctx) {
 	selfCheckOracles()
+	c.Section("concurrent-builders", c.N(40, 2000), func(i int64, _ *gen.Rand) {
+		c05Concurrent(c, i)
+		c.Distinct(uint64(i) | 7<<50)
+	})
+	if c.Config == "race" {
+		return
+	}
 	// (a) every bit of library-fingerprinted messages
 	c.Section("bitflips", c.N(200, 5000), func(_ int64, r *gen.Rand) {
 		wire := c05Make(c, r, 48)
@@ -200,7 +249,7 @@ func c05(c *core.Ctx) {
 		if r.Bool() {
 			for _, t := range rm.TLVs {
 				if t.Type == 0x8028 {
-					if t.Len == 4 && len(wire) >= 28 {
+					if t.Len >= 4 && len(wire) >= 28 { // also over-long values that merely start with the right CRC
 						v := ref.FingerprintValue(wire[:len(wire)-8])
 						wire[t.Off], wire[t.Off+1], wire[t.Off+2], wire[t.Off+3] = byte(v>>24), byte(v>>16), byte(v>>8), byte(v)
 						// the value may itself lie inside the covered span (FINGERPRINT not last): recompute is then inexact; the oracle decides
